@@ -935,7 +935,8 @@ def run_both(ctx, scenarios):
         w = World(sc)
         rec = {'sc': sc, 'world': w, 'error': None}
         try:
-            rec['impl'] = w.run()
+            with ctx.guard({'kind': 'scenario', 'scenario': sc}, what='Manager (ticks / run() of this scenario)'):
+                rec['impl'] = w.run()
             rec['blocked'] = w.blocked
             rec['itree'] = w.tree()
             rec['ivalues'] = w.values()
